@@ -17,6 +17,7 @@ import SfModel.GsmFile
 import SfModel.BlockFile
 import SfModel.DwvwFile
 import SfProps.C02Float
+import SfProps.C06G72x
 namespace Sf.C02Cross
 open Sf Sf.Float Sf.Block Sf.CrossType Sf.C02
 
@@ -718,5 +719,36 @@ theorem dpcm_read_values (h : DpcmR) (c : Conv) (ty : Ty) (n : Nat) (hn : n ≠ 
 
 example : ((DpcmR.open false [0x10, 0x20, 0xF0]).read {} .f32 2).2.1 = some [0x3E000000, 0x3EC00000] ∧
     (((DpcmR.open false [0x10, 0x20, 0xF0]).read {} .f32 2).1.read {} .s16 1).2.1 = some [0x2000] := by decide
+
+
+/-! ## (S) at the model: G.721 / G.723 -/
+
+/-- run read requests of any types on one handle; every call's delivery is converted by ITS type:
+    (type, position before the call, delivered items) -/
+def g72xRun (cv : Conv) : G72x.RHandle → List (Ty × Nat) → List (Ty × Nat × List Int)
+  | _, [] => []
+  | h, (ty, n) :: rest =>
+    (ty, h.pos, (((h.read ty n).2.1).take (h.read ty n).2.2).map (G72x.toCaller cv ty)) :: g72xRun cv (h.read ty n).1 rest
+
+/-- **(S) for G.72x**: whatever the types and sizes of the calls before it, every call delivers the conversion, by its own type, of
+    the decoded stream items at the handle's position — the slice of its type's reference stream `stream.map (toCaller cv ty)` -/
+theorem cross_type_switch_g72x (cv : Conv) : ∀ (reqs : List (Ty × Nat)) (h : G72x.RHandle), Sf.G72x.Proofs.HInv h →
+    ∀ e ∈ g72xRun cv h reqs, e.2.2 = (h.r.slice e.2.1 e.2.2.length).map (G72x.toCaller cv e.1) := by
+  intro reqs
+  induction reqs with
+  | nil => intro h _ e he; simp [g72xRun] at he
+  | cons q qs ih =>
+    intro h hi e he
+    obtain ⟨ty, n⟩ := q
+    obtain ⟨h1, h2, _, h4, _, h6⟩ := Sf.G72x.Proofs.read_spec h hi ty n
+    simp only [g72xRun, List.mem_cons] at he
+    rcases he with rfl | he
+    · simp only [List.length_map]
+      rw [h1, h2, List.take_left' (Sf.Block.Proofs.slice_length _ _ _), Sf.Block.Proofs.slice_length]
+    · have := ih (h.read ty n).1 h6 e he
+      rw [h4] at this
+      exact this
+
+example : Sf.G72x.Proofs.HInv (G72x.RHandle.open G72x.g721 [0x12, 0x34]) := Sf.C06G72x.g72x_open_inv _ _
 
 end Sf.C02Cross
